@@ -114,7 +114,8 @@ def gen_derived(rng: random.Random) -> Dict[str, Any]:
         gates = [g for i in range(libgen.layout(name).gate_sequence_count) for g in layer_sets(libgen.layout(name).get_gate_sequence_at_index(i))[0]
                  if g[0] in involved and g[1] in involved]
         inp["composite"] = {
-            "exclude_edges": [list(g) for g in gates if rng.random() < 0.2],
+            # an excluded edge is written in the layout's orientation or reversed (edge identifiers are non-directional)
+            "exclude_edges": [(list(g) if rng.random() < 0.5 else list(reversed(g))) for g in gates if rng.random() < 0.2],
             "exclude_gate_qubits": [q for q in involved if rng.random() < 0.1],
             "only_required_parking": rng.random() < 0.5,
             "leading_gate": rng.random() < 0.3,
